@@ -269,6 +269,19 @@ func c04Scenarios() []*c04Scenario {
 			return c04Find(w, ctx, nil)
 		}}
 	}
+	// a read-only engine transaction used as a scratch pad and thrown away
+	scratch := func() *c04Op {
+		return &c04Op{name: "engine.Begin(read-only){Insert ghost; Delete all}+discard", write: true, owns: func(string) bool { return false }, run: func(w *world.World, ctx context.Context) string {
+			txn, err := w.Engine.Begin(ctx, false)
+			if err != nil {
+				return "err"
+			}
+			doc := bD("_id", "ghost")
+			_, e1 := txn.Insert(lungo.Handle{"d", "c"}, []*bson.D{&doc}, true)
+			_, e2 := txn.Delete(lungo.Handle{"d", "c"}, &bson.D{}, nil, 0, 0)
+			return world.ErrClass(e1) + "," + world.ErrClass(e2)
+		}}
+	}
 	// counts inside a transaction see what its finds see
 	countsAgree := func() *c04Op {
 		return &c04Op{name: "counts vs Find", run: func(w *world.World, ctx context.Context) string {
@@ -371,6 +384,18 @@ func c04Scenarios() []*c04Scenario {
 					if c.op.name == "counts vs Find" && strings.HasPrefix(c.result, "Find sees") {
 						return "inside the transaction: " + c.result
 					}
+				}
+				return ""
+			}},
+		{name: "S19 discarded writes into a read-only engine transaction vs reader vs $inc", setup: seed(d1), threads: [][]*c04Op{{scratch()}, {read(), read()}, {inc("w", 10)}}, bound: -1,
+			expect: func(calls []*c04Call, final string) string {
+				for _, c := range calls {
+					if c.op.name == "Find({})" && (strings.Contains(c.result, "ghost") || c.result == "") {
+						return "a reader saw " + c.result + " although the only writes beside the $inc went into a read-only transaction that was thrown away"
+					}
+				}
+				if strings.Contains(final, "ghost") || final == "" {
+					return "the collection ends as " + final
 				}
 				return ""
 			}},
